@@ -219,6 +219,8 @@ func (v *VerifInstance) Running() config.Compiled {
 func (v *VerifInstance) Reload(trigger string) bool {
 	v.reloadMu.Lock()
 	defer v.reloadMu.Unlock()
+	verifBootMu.Lock() // loadAuth of different instances must not interleave (clock injection)
+	defer verifBootMu.Unlock()
 	verifLoading.Store(v)
 	updated, ok := reloadConfig(v.opts.ConfigPath, v.running, v.state, v.logger, trigger)
 	verifLoading.Store(nil)
@@ -232,6 +234,8 @@ func (v *VerifInstance) Reload(trigger string) bool {
 func (v *VerifInstance) UpsertManagedEndpoint(req admin.ManagementEndpointUpsertRequest) (admin.ManagementEndpointMutationResult, error) {
 	v.reloadMu.Lock()
 	defer v.reloadMu.Unlock()
+	verifBootMu.Lock()
+	defer verifBootMu.Unlock()
 	verifLoading.Store(v)
 	defer verifLoading.Store(nil)
 	result, updated, err := mutateManagedEndpointConfig(v.opts.ConfigPath, v.running, v.state, v.logger, func(cfg *config.Config, compiled config.Compiled) (admin.ManagementEndpointMutationResult, error) {
@@ -248,6 +252,8 @@ func (v *VerifInstance) UpsertManagedEndpoint(req admin.ManagementEndpointUpsert
 func (v *VerifInstance) DeleteManagedEndpoint(req admin.ManagementEndpointDeleteRequest) (admin.ManagementEndpointMutationResult, error) {
 	v.reloadMu.Lock()
 	defer v.reloadMu.Unlock()
+	verifBootMu.Lock()
+	defer verifBootMu.Unlock()
 	verifLoading.Store(v)
 	defer verifLoading.Store(nil)
 	result, updated, err := mutateManagedEndpointConfig(v.opts.ConfigPath, v.running, v.state, v.logger, func(cfg *config.Config, compiled config.Compiled) (admin.ManagementEndpointMutationResult, error) {
